@@ -142,7 +142,7 @@ def solovev(rng, sign, idx):
 
     RR, ZZ = np.meshgrid(r, z, indexing='ij')
     psi = psi_f(RR, ZZ)
-    scale = rng.choice([0.95, 1.0, 1.07])        # polygon inside / on / outside the psi_n = 1 contour
+    scale = [1.07, 1.0, 0.95][(idx // 2) % 3]    # polygon outside / on / inside the psi_n = 1 contour, each with both signs
     nth = rng.randint(40, 90)
     th = np.linspace(0, 2 * np.pi, nth, endpoint=False)
     if rng.random() < 0.5:
@@ -182,7 +182,7 @@ def equilibria(ctx):
     except Exception as e:  # noqa
         ctx.count('generomak-unavailable')
         ctx.log('generomak equilibrium unavailable: %r' % (e,))
-    n = ctx.n(8, 40)
+    n = ctx.n(8, 100)
     for i in range(n):
         out.append(solovev(ctx.rng, 1 if i % 2 == 0 else -1, i))
     return out
@@ -192,9 +192,9 @@ def equilibria(ctx):
 class Prof:
     """a 1-D profile given either as a Python callable (quadratic) or as a 2xN array"""
 
-    def __init__(self, rng, scale=1.0, allow_array=True):
+    def __init__(self, rng, scale=1.0, kind=None):
         from raysect.core.math.function.float import Interpolator1DArray
-        self.kind = rng.choice(['fn', 'array']) if allow_array else 'fn'
+        self.kind = kind or rng.choice(['fn', 'array'])
         if self.kind == 'fn':
             self.c = (scale * rng.uniform(-2, 2), scale * rng.uniform(-2, 2), scale * rng.uniform(-2, 2))
             if rng.random() < 0.15:
@@ -222,9 +222,9 @@ class Prof:
 
 
 class ProfSet:
-    def __init__(self, rng, ec):
+    def __init__(self, rng, ec, k=None):
         from raysect.core import Vector3D
-        self.te = Prof(rng, 100.0)
+        self.te = Prof(rng, 100.0, kind={0: 'fn', 1: 'array'}.get(k))
         self.out = rng.choice([0.0, -1.0, 7.5, rng.uniform(-10, 10)])
         self.tor = Prof(rng, 1e4)
         self.pol = Prof(rng, 1e3)
@@ -275,7 +275,7 @@ def stream_equilibria(ctx):
     from cherab.core.math import PolygonMask2D
     rng = ctx.rng
     ecs = equilibria(ctx)
-    npts = ctx.n(900, 2500)
+    npts = ctx.n(900, 3000)
     nsets = ctx.n(3, 5)
 
     # pass 0: the model normalises every grid node; raysect interpolates the model's grid
@@ -295,7 +295,7 @@ def stream_equilibria(ctx):
         ec.normgrid = grid
         ec.poly = PolygonMask2D(eq.lcfs_polygon)
         ec.dr, ec.dz = eq._calculate_differentials(eq.r_data, eq.z_data, eq.psi_data)
-        ec.sets = [ProfSet(rng, ec) for _ in range(nsets)]
+        ec.sets = [ProfSet(rng, ec, k_) for k_ in range(nsets)]
         ec.bpol_max = 0.0
         pts = sample_points(rng, ec, npts)
         for (r, z) in pts:
@@ -657,7 +657,7 @@ def stream_helpers(ctx):
 
     square = np.array([[0.0, 0.0], [2.0, 0.0], [2.0, 2.0], [0.0, 2.0]])
     pm = PolygonMask2D(square)
-    n = ctx.n(2500, 30000)
+    n = ctx.n(2500, 60000)
     for it in range(n):
         r, z = rng.uniform(0.2, 3.0), rng.uniform(-2, 2)
         # ---- EFITLCFSMask
